@@ -336,6 +336,9 @@ def e2e_case(draw, broker):
     # the worker is already consuming when the job is enqueued, and the producer's bucket store is slower than the worker's lookup
     c["worker_first"] = draw(st.integers(0, 3)) == 0
     c["requeue"] = draw(st.one_of(st.none(), st.none(), st.dictionaries(ARG_KEYS, st.integers(-9, 9), min_size=1, max_size=3)))
+    # the worker's first look-up of the argument bucket fails (a transient storage error): whatever the worker does with that
+    # delivery, the actor is never called with anything but the job's arguments, and a later delivery still carries them
+    c["bucket_fault"] = draw(st.integers(0, 3)) == 0
     if broker != "mem":
         c["lat"] = draw(st.lists(st.sampled_from([0.0, 0.001]), max_size=6))
     return c
@@ -467,15 +470,52 @@ async def _e2e(loop, c, out: Outcome):
         got.append(kwargs)
 
     router.actor(catch_all, name=c["name"], queue=c["queue"], converter=BasicConverter)
+    expected = {} if args is None else normalise(args)
+    if requeued is not None:
+        expected = c["requeue"]
+    # (the detour takes a few virtual seconds: a job whose time-to-live is shorter than that would simply expire)
+    if (c.get("bucket_fault") and c["bucket"] and args is not None and requeued is None and conn.args_bucket_broker is not None
+            and (c["ttl_us"] is None or c["ttl_us"] > 60 * US)):
+        ab = conn.args_bucket_broker
+        orig_get = ab.get_bucket
+        state = {"n": 0}
+
+        async def flaky_get(*a: Any, **k: Any) -> Any:
+            state["n"] += 1
+            if state["n"] == 1:
+                raise ConnectionError("argument storage unreachable")
+            return await orig_get(*a, **k)
+
+        ab.get_bucket = flaky_get  # type: ignore[method-assign]
+        wf = Worker(routers=[router], messages_limit=1, handle_signals=[], graceful_shutdown_time=1.0, _connection=conn)
+        rt = asyncio.ensure_future(wf.run())
+        await asyncio.sleep(2.0)
+        if not rt.done():
+            hs = loop.sig_handlers.get(int(__import__("signal").SIGTERM))
+            if hs is not None:
+                hs[0](*hs[1])
+        try:
+            await asyncio.wait_for(rt, timeout=20.0)
+        except asyncio.TimeoutError:
+            out.v("worker-stuck", "worker did not return after the stop signal (a failed argument look-up before)")
+            return
+        except Exception:  # noqa: BLE001  (how the worker reports the storage error is not this property's business)
+            pass
+        ab.get_bucket = orig_get  # type: ignore[method-assign]
+        for g in got:
+            if isinstance(expected, dict) and g != expected:
+                out.v("actor-arguments", f"after a failed look-up of the argument bucket the actor was called with {g!r}, expected "
+                      f"{expected!r} (or no call at all)", broker=c["broker"], bucket_fault=True)
+                return
+        out.cls("bucket-look-up-failed-once")
+        if got:
+            return  # the worker retried the look-up itself and ran the actor with the right arguments: nothing left to deliver
     w = Worker(routers=[router], messages_limit=1, handle_signals=[], _connection=conn)
     try:
         await asyncio.wait_for(w.run(), timeout=20.0)
     except asyncio.TimeoutError:
         out.v("not-executed", "worker did not execute the job within 20 s")
         return
-    expected = {} if args is None else normalise(args)
-    if requeued is not None:
-        expected = c["requeue"]
     if len(got) != 1:
         out.v("not-executed", f"actor ran {len(got)} times")
     elif isinstance(expected, dict) and got[0] != expected:
